@@ -185,6 +185,8 @@ func genC28(t *rapid.T) c28Case {
 			op.TsS = 0
 		case 3:
 			op.TsS = c28TsFor(op.H + 1)
+		case 4:
+			op.TsS += 1 << 55 // seconds*1e9 wraps to the same uint64 as the honest timestamp (see TestC28TsWrap)
 		}
 		op.AttH = op.H
 		if rapid.IntRange(0, 7).Draw(t, "atth") == 0 {
@@ -664,11 +666,13 @@ func TestC28(t *testing.T) {
 	})
 }
 
-// ---- known-finding candidate: seconds -> nanoseconds overflow hides a conflicting timestamp ----
+// ---- regression: seconds -> nanoseconds overflow hid a conflicting timestamp -------------------
 //
-// ABIDecodeStateAttestation computes Timestamp = seconds * 1e9 in uint64 without an overflow check
-// and CheckForMisbehaviour compares the products, so two DIFFERENT attested timestamps s and
-// s + 2^55 seconds (2^55 * 1e9 = 1953125 * 2^64) for one height are not seen as a conflict.
+// Found by this check on the original tree and fixed in /repo (fix: commit): ABIDecodeStateAttestation
+// computed Timestamp = seconds * 1e9 in uint64 without an overflow check and CheckForMisbehaviour
+// compares the products, so two DIFFERENT attested timestamps s and s + 2^55 seconds
+// (2^55 * 1e9 = 1953125 * 2^64) for one height were not seen as a conflict. Strict: no known-finding
+// entry exists; on a tree without the overflow check this test reports a violation.
 
 const c28WrapSig = "timestamp-differing-by-2^55-seconds-for-stored-height-does-not-freeze"
 
@@ -704,7 +708,7 @@ func runC28Wrap(outer *testing.T) func(rapid.TB, c28WrapCase, *vx.Case) {
 	}
 }
 
-// TestC28TsWrap re-demonstrates the known-finding candidate above on every run.
+// TestC28TsWrap keeps the minimal reproduction of the overflow finding as a regression check.
 func TestC28TsWrap(t *testing.T) {
 	vx.Check(t, vx.Prop[c28WrapCase]{
 		ID:        "C28",
